@@ -157,3 +157,6 @@ func (s *S) Live() []*Task {
 }
 
 func (s *S) Tasks() []*Task { return s.tasks }
+
+// Current returns the task that is running right now (nil when the driver runs).
+func (s *S) Current() *Task { return s.cur.Load() }
